@@ -100,7 +100,9 @@ func NewBackoff(c *BackoffConfig) (l *Backoff) {
 	// purging the caches to free the map bucket space in the caches.
 	return &Backoff{
 		// TODO(ameshkov): Consider running the janitor more often.
-		reqCounters:      cache.New(c.Period, c.Period),
+		// Make sure that the items live at least as long as the intervals,
+		// see [Backoff.hasHitRateLimit].
+		reqCounters:      cache.New(max(c.Period, c.IPv4Interval, c.IPv6Interval), c.Period),
 		hitCounters:      cache.New(c.Duration, c.Duration),
 		allowlist:        c.Allowlist,
 		respSzEst:        c.ResponseSizeEstimate,
@@ -216,9 +218,15 @@ func (l *Backoff) incBackoff(key string) {
 // maximum count of requests per given interval.
 func (l *Backoff) hasHitRateLimit(subnetIPStr string, count uint, ivl time.Duration) (ok bool) {
 	var r *RequestCounter
-	rVal, ok := l.reqCounters.Get(subnetIPStr)
+	rVal, exp, ok := l.reqCounters.GetWithExpiration(subnetIPStr)
 	if ok {
 		r = rVal.(*RequestCounter)
+		if time.Until(exp) < ivl {
+			// Keep the counter of an active subnet for at least one more
+			// interval, since otherwise its sliding window would be
+			// forgotten when the item expires.
+			l.reqCounters.SetDefault(subnetIPStr, r)
+		}
 	} else {
 		r = NewRequestCounter(count, ivl)
 		l.reqCounters.SetDefault(subnetIPStr, r)
